@@ -80,6 +80,9 @@ func (ep entryPoint) kind(m *meta.Module) string {
 	if meta.IsList(d) {
 		return "list"
 	}
+	if meta.IsLeaf(d) {
+		return "leaf"
+	}
 	return "container"
 }
 
